@@ -131,7 +131,7 @@ def constructor_grid(rep):
 
     jobs = [("log8", MC, list(range(0, 255)))]
     if rep.tier == "quick":
-        nrs = sorted(set(range(0, 65535, 97)) | set(range(65527, 65535)) | {1023})
+        nrs = sorted(set(range(0, 65535, 97)) | set(range(65495, 65535)) | {1023})
         jobs.append(("log16", MC, nrs))
     else:
         allnr = list(range(0, 65535))
@@ -149,6 +149,30 @@ def constructor_grid(rep):
                 f"{kind}(max_count={mc}, num_reserved={nr}) is accepted but its maximum counter "
                 f"decodes to {v!r}",
             )
+    # configurations whose Newton starting point max_count^(1/K) sits on or next to the
+    # stationary point of the base equation (K = number of log counters, max_count ~ K^K):
+    # the first step overshoots by orders of magnitude or the slope is exactly zero
+    fam = 0
+    for kind, umax in (("log8", 255), ("log16", 65535)):
+        for K in range(1, 24):
+            nr = umax - K
+            for base_mc in (K**K, K**K + nr, (K + 1) ** K, 2**64 - 4):
+                for d in range(-3, 4):
+                    mc = base_mc + d
+                    if not umax < mc < 2**64:
+                        continue
+                    v = decode_top(kind, mc, nr)
+                    fam += 1
+                    if v is not None:
+                        acc += 1
+                        if not abs(v - mc) <= 1e-6 * mc:
+                            rep.violation(
+                                {"what": "ctor", "kind_": kind, "max_count": mc, "num_reserved": nr},
+                                f"{kind}(max_count={mc}, num_reserved={nr}) is accepted but its "
+                                f"maximum counter decodes to {v!r}",
+                            )
+    tot += fam
+    rep.part("constructor_stationary_family", configurations=fam)
     # both counter widths constructed with the SAME explicit (max_count, num_reserved) in one
     # process, in both orders: each must get its own base
     inter = 0
